@@ -128,7 +128,7 @@ def run(tier, seed):
     k = 6 if quick else 120
     progs2 = runner.compile_programs(items[:k], want=('machine', 'codegen'))
     pairs = [(p, a) for p, a in zip(progs2, asts[:k]) if p.ok]
-    reports, st, cases = conform.explore(pairs, maxlen=4, per_cell=1, timeout=150 if quick else 2400, budget=600 if quick else 20000)
+    reports, st, cases = conform.explore(pairs, maxlen=4, per_cell=1, timeout=1500 if quick else 9000, budget=600 if quick else 20000)
     kinds = collections.Counter()
     for (p, ast), reps in zip(pairs, reports):
         for r in reps:
